@@ -44,6 +44,7 @@ const M_OPS: [Op; 6] = [Op::Reserve, Op::TryReclaim, Op::FreezeRead, Op::MutInto
 struct Prog {
     setup: u8,
     with_ref: bool,
+    front_off: usize,
     threads: Vec<Vec<Op>>,
 }
 const N_SETUPS: u8 = 7;
@@ -431,7 +432,7 @@ struct ExecResult {
 
 fn execute(p: &Prog, seed: u64, tag: u32) -> ExecResult {
     LOGN.store(0, Relaxed);
-    let d = data();
+    let mut d = data();
     let nt = p.threads.len();
     let mut owns: Vec<Vec<H>> = (0..nt).map(|_| Vec::new()).collect();
     // a handle that stays with the main thread and is only lent out as `&Bytes` (no Arc: its
@@ -443,7 +444,12 @@ fn execute(p: &Prog, seed: u64, tag: u32) -> ExecResult {
         0 => {
             let mut v = Vec::with_capacity(LEN);
             v.extend_from_slice(&d);
-            let b = Bytes::from(v);
+            let mut b = Bytes::from(v);
+            // a front offset on the still unpromoted handle (odd program ids)
+            if p.front_off > 0 {
+                b.advance(p.front_off);
+                d.drain(..p.front_off);
+            }
             base = b.as_ptr() as usize;
             shared_ref = Some(b);
         }
@@ -608,12 +614,13 @@ fn gen_prog(r: &mut Rng) -> Prog {
         }
         threads.push(ops);
     }
-    Prog { setup, with_ref, threads }
+    let front_off = if setup == 0 && r.chance(1, 2) { 1 + r.below(7) } else { 0 };
+    Prog { setup, with_ref, front_off, threads }
 }
 
 fn prog_name(p: &Prog) -> String {
     let t: Vec<String> = p.threads.iter().map(|o| o.iter().map(|x| format!("{x:?}")).collect::<Vec<_>>().join(",")).collect();
-    format!("{}{}[{}]", SETUP_NAMES[p.setup as usize], if p.with_ref { "+ref" } else { "" }, t.join("|"))
+    format!("{}{}{}[{}]", SETUP_NAMES[p.setup as usize], if p.with_ref { "+ref" } else { "" }, if p.front_off > 0 { "+off" } else { "" }, t.join("|"))
 }
 
 fn main() {
